@@ -402,6 +402,41 @@ def r3_exit_status_tables(w):
                     else:
                         r.bad(cons, '%s|result-changed' % fb.short,
                               'FormatResult::Changed is constructed in %s without a dominating "formatted != content" test (%s)' % (fb.short, why), fb.loc(s['span']))
+    # (g) a differing input is always counted: from the `formatted != content` edge every path to the end of the iteration (or to the return)
+    #     constructs a Changed value - in check mode as well as when writing
+    n_g = 0
+    for fb in c.fns():
+        v = c.view(fb)
+        for (sw, tgt, how) in _differs_switches(c, v):
+            n_g += 1
+            changed_blocks = set()
+            for bi, blk in enumerate(fb.blocks):
+                for st in blk['stmts']:
+                    if st['s'] == 'assign' and st['rv']['r'] == 'agg' and st['rv'].get('ak') == 'adt' and st['rv'].get('vname') == 'Changed' \
+                            and st['rv']['adt'] in ('typstyle::fmt::FormatStatus', 'typstyle::fmt::FormatResult'):
+                        changed_blocks.add(bi)
+            doms = set(v.dom().get(sw, ())) | {sw}
+            seen, work, escaped = set(), [tgt], None
+            while work:
+                x = work.pop()
+                if x in seen or x in changed_blocks:
+                    continue
+                seen.add(x)
+                if fb.blocks[x]['term']['t'] == 'return' or (x in doms and x != tgt):
+                    escaped = x
+                    break
+                for y in fb.succs(x):
+                    if not fb.blocks[y]['cleanup']:
+                        work.append(y)
+            cons = {'fn': fb.short, 'differs_test': how, 'bb': sw}
+            if escaped is None:
+                r.ok(cons, 'every path from the differs edge constructs Changed before the iteration / function ends')
+            else:
+                r.bad(cons, '%s|differs-not-counted' % fb.short,
+                      'in %s an input whose formatted text differs can finish its iteration without a Changed status being recorded (e.g. only the writing branch sets it): '
+                      '--check would exit 0 although a file needs formatting' % fb.short, fb.loc(fb.blocks[sw]['term']['span']))
+    if n_g < 2:
+        r.bad({'differs_tests': n_g}, 'differs|anchor', 'expected the comparison of formatted text and content in format_debug and format_all, found %d' % n_g)
     # (f) batch functions return Ok(status) where status is only ever initialised Unchanged, OR-ed, or set Changed (checked above)
     for fb in c.fns():
         if fb.def_kind == 'Closure':
@@ -463,6 +498,35 @@ def _self_write_label(v, blocks):
 
 EQ = re.compile(r'PartialEq.*>::eq$|PartialEq::eq$')
 NE = re.compile(r'PartialEq.*>::ne$|PartialEq::ne$')
+
+
+def _differs_switches(c, v):
+    """[(switch block, target of the "formatted != content" edge, description)]"""
+    b = v.b
+    out = []
+    for s_, blk in enumerate(b.blocks):
+        t = blk['term']
+        if t['t'] != 'switch' or blk['cleanup']:
+            continue
+        for o in v.pv.peel(v.pv.origins_operand(t['discr'])):
+            o = strip_casts(o)
+            if o[0] != 'call':
+                continue
+            ct = v.pv.call_term(o)
+            p = resolved_path(ct) or callee_path(ct) or ''
+            dp = callee_path(ct) or ''
+            is_eq = bool(EQ.search(p) or EQ.search(dp))
+            is_ne = bool(NE.search(p) or NE.search(dp))
+            if not (is_eq or is_ne) or len(ct['args']) != 2:
+                continue
+            tags = [c.classify_text(b, v.pv.origins_operand(a)) for a in ct['args']]
+            if not ((tags[0] == {'formatted'} and tags[1] == {'input'}) or (tags[1] == {'formatted'} and tags[0] == {'input'})):
+                continue
+            want = True if is_ne else False
+            for tgt, label in v.switch_edges(s_):
+                if v.label_values(s_, label) == {want}:
+                    out.append((s_, tgt, '%s(formatted, content)==%s' % ('ne' if is_ne else 'eq', want)))
+    return out
 
 
 def _differs_guard(c, v, bi):
